@@ -1,6 +1,6 @@
 """Comparison of extracted traces (trace.py) with the frozen, reviewed spec tables in /verif/spec/traces/<PROP>.json."""
 import difflib, json, os
-from . import trace as T, sites as S, hirlib as H
+from . import trace as T, sites as S, hirlib as H, sym as SY
 from .core import VERIF
 
 
@@ -21,37 +21,43 @@ def fn_index(c):
     return idx
 
 
-def _normalise_order(rows):
-    """rows that describe order-insensitive facts are compared as sets: runs of pure field initialisations (`init`, no wire
-    operation involved) and the trailing `bind` rows; everything that touches the wire keeps its order"""
-    out = []
-    run = []
-
-    def flush():
-        if run:
-            out.extend(sorted(run))
-            del run[:]
-    for r in rows:
-        body = r.split(" | ", 1)[1] if " | " in r else r
-        if body.startswith("init "):
-            run.append(r)
-        else:
-            flush()
-            out.append(r)
-    flush()
-    # trailing bind rows (emitted after all op rows)
-    i = len(out)
-    while i > 0 and (" | bind " in out[i - 1] or out[i - 1].startswith("- | bind ")):
-        i -= 1
-    return out[:i] + sorted(out[i:])
+_UNITS = {}
+_AUTO = {}
 
 
-def rows_of(c, f, opts):
-    T.set_crate(c)
-    rows = _normalise_order(T.trace_strings(f, calls=bool(opts.get("calls"))))
-    if opts.get("writer"):
-        body = H.body_of(f)
-        rows.append("writer-body | " + T._stable_paths(H.show(body)))
+def all_units(c):
+    """def paths of every function that has a reviewed table (in any property): calls between units stay opaque rows,
+    every other local helper is inlined into its caller's term"""
+    key = id(c)
+    if key not in _UNITS:
+        idx = fn_index(c)
+        units = set()
+        d = os.path.join(VERIF, "spec", "traces")
+        for fn in sorted(os.listdir(d)):
+            if not fn.endswith(".json"):
+                continue
+            with open(os.path.join(d, fn)) as fh:
+                sp = json.load(fh)
+            for name in sp["functions"]:
+                f = idx.get(name)
+                if f is not None:
+                    units.add(f["path"])
+        from .cg import CallGraph
+        g = CallGraph(c)
+        # the I/O API boundary is never inlined through, tabled or not: crate-visible functions that reach a socket / http call
+        auto = set()
+        for f in c.fns:
+            if f["kind"] in ("Fn", "AssocFn") and f.get("hir") and (f.get("vis") == "pub" or f.get("vis") == "in:" + c.name) \
+                    and f["path"] not in units and not f["path"].startswith(SY.KERNEL_PREFIXES) and g.reaches(f["path"], SY.IO_PRED):
+                auto.add(f["path"])
+        _AUTO[key] = sorted(auto)
+        _UNITS[key] = (units | auto, g)
+    return _UNITS[key]
+
+
+def rows_of(c, f, opts=None):
+    units, g = all_units(c)
+    rows, notes = SY.rows_of(c, f, lambda p: p in units, g)
     return rows
 
 
@@ -80,7 +86,7 @@ def compare(rep, c, prop, rule):
         n_rows += len(want)
         if cur == want:
             for i, r in enumerate(want):
-                rep.add("%s|trace|%d" % (name, i), rule, True, r, f["span"], nontrivial=not r.startswith("- | init "))
+                rep.add("%s|trace|%d" % (name, i), rule, True, r, f["span"])
             continue
         sm = difflib.SequenceMatcher(a=want, b=cur, autojunk=False)
         for tag, i1, i2, j1, j2 in sm.get_opcodes():
